@@ -1,27 +1,63 @@
 import FsModel.Driver
+import FsModel.DriverGrid
+import FsModel.Mst
 
 /-! Scenario loop of `fsmodel`. -/
 namespace Fs.Driver
 open Fs.Wire Fs.Flow
 
-def mstStub (_ : Env F) (r : Run) (_ : Nat) (_ : List (Nat × List Nat)) (_ _ : Bool) : Run := r
+def mstHook (env : Env F) (r : Run) (k : Nat) (perms : List (Nat × List Nat)) (boruvka carve : Bool) : Run :=
+  let perm := ((perms.find? (·.1 == k)).map (·.2)).getD []
+  let o := Fs.Mst.resolve S env r.g r.elev boruvka carve perm Fs.Gen.maxLowDegree
+  { r with g := o.g, elev := look o.elev 0.0, hang := r.hang || o.hang }
 
-def runCall (st : St) (c : Call) : St × List String :=
+structure DSt where
+  st : St := {}
+  grid : GridSpec := .none
+  gridOk : Bool := true
+
+/-- the model's own neighbour lists must agree with the topology the real grid reported -/
+def topoAgrees (g : GridSpec) (st : St) : Bool :=
+  match g with
+  | .none | .mesh _ => true
+  | _ => (List.range st.topo.n).all fun i =>
+      let a := st.topo.nbrs i
+      let idx := g.nbIdx i
+      let d := g.nbDist i
+      a.length == idx.length && (a.zip (idx.zip d)).all (fun p => p.1.1 == p.2.1 && p.1.2.toBits == p.2.2.toBits)
+
+def runFlow (st : St) (c : Call) : St × List String :=
   match c.toks with
-  | "grid" :: _ => (st, ["O grid ok"])
   | "graph" :: _ => callGraph c st
   | "set_mask" :: _ => (st, ["O set_mask ok"])
   | "set_base" :: _ => (st, ["O set_base ok"])
   | "set_param" :: _ => (st, ["O set_param ok"])
-  | "update" :: _ => callUpdate c st mstStub
+  | "update" :: _ => callUpdate c st mstHook
   | "acc" :: _ => (st, callAcc "" c st.topo.n st.g)
   | "basins" :: _ => (st, callBasins "" st.topo.n st.g st.mask st.isBase)
   | _ => (st, ["O model-unsupported"])
 
+def runCall (d : DSt) (c : Call) : DSt × List String :=
+  match c.toks with
+  | "grid" :: _ =>
+    match parseGrid c.toks with
+    | .ok g => ({ d with grid := g, gridOk := true }, ["O grid ok"])
+    | .error e => ({ d with gridOk := false }, ["O grid err " ++ e.name])
+  | "grid_common" :: _ => (d, gridCommon d.grid)
+  | ["q", kind, i] => (d, gridQuery d.grid kind (natOf i))
+  | ["qr", kind, i] => (d, gridQueryR d.grid kind (natOf i))
+  | ["iter", which, dir] => (d, gridIter d.grid which dir)
+  | "graph" :: _ =>
+    let (st', outs) := runFlow d.st c
+    ({ d with st := st' }, [line "topo_model_agrees" (if topoAgrees d.grid st' then "1" else "0")] ++ outs)
+  | _ =>
+    let (st', outs) := runFlow d.st c
+    ({ d with st := st' }, outs)
+
 /-- group transcript lines into scenarios and calls -/
-partial def loop (h : IO.FS.Stream) (out : IO.FS.Stream) (st : St) (cur : Option Call) : IO Unit := do
+partial def loop (h : IO.FS.Stream) (out : IO.FS.Stream) (st : DSt) (cur : Option Call) : IO Unit := do
   let l ← h.getLine
-  let flush (st : St) (cur : Option Call) : IO St := do
+  let flush (st : DSt) (cur : Option Call) : IO DSt := do
     match cur with
     | none => pure st
     | some c =>
